@@ -470,12 +470,13 @@ VERDICTS = {1: "the parse of the implementation's SQL does not render back to it
             2: "the reference interpreter has no value for the implementation's SQL",
             3: "model tree and implementation SQL select different rows on this database",
             4: "rows selected differ from the Prometheus meaning of the matchers",
-            5: "absent-label", 7: "more-than-8-matchers", 8: "no-matcher"}
+            5: "absent-label", 7: "more-than-8-matchers", 8: "no-matcher",
+            9: "list-function reading and interpreter disagree on the model tree"}
 
 
 def slim(c):
     """a replayable case: inputs only"""
-    keep = ("id", "kind", "sub", "class", "hints", "ctx", "ms", "query", "rows", "fetch", "db", "sort_series")
+    keep = ("id", "kind", "sub", "class", "hints", "ctx", "ms", "query", "rows", "fetch", "db", "pdb", "sort_series")
     return {k: c[k] for k in keep if k in c and c[k] is not None}
 
 
@@ -535,6 +536,22 @@ def run_shard(ck, cases, idx):
         if c["kind"] == "prof" and t and c.get("err") not in ("parse", "unquote"):
             lines.append("(prof %d %s %d %d %s %s)" % (cid, sx_str(t["prof_gin"]), c["ctx"]["from_ns"], c["ctx"]["to_ns"], sx_bool(c["ctx"]["cluster"]),
                                                        sx_list(["(%s %s %s)" % (sx_str(x["n"]), OPS[x["op"]], sx_str(x["v"])) for x in c.get("sels") or []])))
+        if c["kind"] == "prof" and t and not c.get("err") and c.get("pdb"):
+            try:
+                tree = sx_select(parse_sql(c["sql"]))
+            except (ParseError, IndexError, RecursionError) as ex:
+                parse_failures.append((c, str(ex)))
+                tree = None
+            if tree:
+                orc = c.get("oracle") or []
+                lines.append("(psem %d %s %s %d %d %s %s %s %s %s %s)" % (
+                    cid, sx_bool(c["ctx"]["cluster"]), sx_str(t["prof_gin"]), c["ctx"]["from_ns"], c["ctx"]["to_ns"],
+                    sx_list(["(%s %s %s)" % (sx_str(x["n"]), OPS[x["op"]], sx_str(x["v"])) for x in c.get("sels") or []]),
+                    sx_list(["(%d %d %s %s %s %s)" % (p["fp"], p["day"], sx_str(p["type_id"]), sx_str(p["service"]),
+                                                     sx_labels(p.get("stu")), sx_labels(p.get("labels"))) for p in c["pdb"]]),
+                    tree, sx_str(c["sql"]),
+                    sx_list(["(%s %s %s)" % (sx_str(e["p"]), sx_str(e["v"]), sx_bool(e["search"])) for e in orc]),
+                    sx_list(["(%s %s %s)" % (sx_str(e["p"]), sx_str(e["v"]), sx_bool(e["full"])) for e in orc if not e.get("anch")])))
         if c["kind"] == "querier" and not c.get("err"):
             h = c["hints"]
             cl = sx_bool(c["ctx"]["cluster"])
@@ -567,7 +584,7 @@ def run_shard(ck, cases, idx):
     if rc != 0:
         ck.obligation("selection cases evaluated by the extracted models", False, out[-2500:])
         return False
-    res = {"sql": {}, "prof": {}, "lbl": {}, "sel": {}, "sem": {}}
+    res = {"sql": {}, "prof": {}, "lbl": {}, "sel": {}, "sem": {}, "psem": {}}
     for ln in out.splitlines():
         p = ln.split()
         if len(p) >= 3 and p[0] in res:
@@ -643,15 +660,17 @@ def run_shard(ck, cases, idx):
                       "case": slim(worst), "observed": worst.get("obs")}, no_input=True)
 
     # ---- 3. the implementation's SQL under the reference interpreter
-    bad = {k: [] for k in (1, 2, 3, 4)}
+    bad = {k: [] for k in (1, 2, 3, 4, 9)}
     explained = {5: 0, 7: 0, 8: 0}
-    for cid, v in res["sem"].items():
+    for cid, v in list(res["sem"].items()) + list(res["psem"].items()):
         code = int(v[0])
         if code in bad:
             bad[code].append(byid[cid])
         elif code in explained:
             explained[code] += 1
             fid = {5: "absent-label-not-selected", 7: "more-than-8-matchers", 8: None}[code]
+            if byid[cid]["kind"] == "prof" and fid:
+                fid = "prof-" + fid
             if fid and fid in known:
                 ck.report_known(fid, known[fid])
             elif fid:
@@ -659,20 +678,28 @@ def run_shard(ck, cases, idx):
     for c, ex in parse_failures:
         bad[1].append(c)
     ck.extra["promsel_sem_explained"] = {VERDICTS[k]: v + ck.extra.get("promsel_sem_explained", {}).get(VERDICTS[k], 0) for k, v in explained.items()}
-    nsem = len(res["sem"]) + len(parse_failures)
+    nsem = len(res["sem"]) + len(res["psem"]) + len(parse_failures)
     ck.obligation("the implementation's SQL parses and renders back to its text (%d statements)" % nsem, not bad[1],
                   "; ".join(str(x) for x in ([ex for _, ex in parse_failures[:2]] + [c["id"] for c in bad[1][:5]])))
     ck.obligation("the reference interpreter evaluates the implementation's SQL", not bad[2], "case ids: %s" % [c["id"] for c in bad[2][:10]])
     ck.obligation("model tree and implementation SQL select the same rows under the reference interpreter", not bad[3],
                   "case ids: %s" % [c["id"] for c in bad[3][:10]])
-    ck.obligation("rows selected by the implementation's SQL = Prometheus meaning of the matchers on the generated database (outside the recorded causes)",
+    ck.obligation("rows / fingerprints selected by the implementation's SQL = Prometheus / Pyroscope meaning of the matchers on the generated database (outside the recorded causes)",
                   not bad[4], "case ids: %s" % [c["id"] for c in bad[4][:10]])
-    for code in (4, 3):
+    ck.obligation("list-function reading prof_fp_sel = interpreter on the model's profile selector tree", not bad[9],
+                  "case ids: %s" % [c["id"] for c in bad[9][:10]])
+    for code in (4, 3, 9):
         if bad[code]:
-            worst = min(bad[code], key=lambda c: (len(c.get("ms")), len(c["db"]["series"]), len(c["db"]["samples"])))
+            def size(c):
+                if c["kind"] == "prof":
+                    return (len(c.get("sels") or []), len(c.get("pdb") or []), 0)
+                return (len(c.get("ms") or []), len(c["db"].get("series") or []), len(c["db"].get("samples") or []))
+            worst = min(bad[code], key=size)
             ck.violation({"property": "C17", "part": "selection", "kind": VERDICTS[code],
-                          "matchers": worst.get("ms"), "hints": worst["hints"], "database": worst["db"], "sql": worst["sql"],
-                          "case": slim(worst), "replay": "harness promsel --cases <file with the case line>, then checks/promsel.py sem_verdict"})
+                          "matchers": worst.get("ms") or worst.get("sels"), "hints": worst.get("hints"),
+                          "database": worst.get("db") or worst.get("pdb"), "sql": worst["sql"],
+                          "case": slim(worst), "replay": "harness promsel --cases <file with the case line>, then checks/promsel.py sem_verdict"},
+                         no_input=(code == 9))
             break
     return True
 
